@@ -707,6 +707,15 @@ impl Optimizer {
                 if let Some(ref path_alias) = expand.path_alias {
                     introduced_vars.push(path_alias);
                 }
+                // length(p) is translated to the column `_path_length_{alias}`, which this
+                // expand produces as well.
+                let path_length_var = expand
+                    .path_alias
+                    .as_ref()
+                    .map(|alias| format!("_path_length_{alias}"));
+                if let Some(ref length_var) = path_length_var {
+                    introduced_vars.push(length_var);
+                }
 
                 // Check if predicate uses any variables introduced by this expand
                 let uses_introduced_vars =
